@@ -102,6 +102,21 @@ LOG_TEXT = {
 }
 
 
+_KNOWN_ATTRS = None
+
+
+def _known_attributes():
+    global _KNOWN_ATTRS
+    if _KNOWN_ATTRS is None:
+        import json, pathlib
+        try:
+            _KNOWN_ATTRS = set(json.load(open(pathlib.Path(__file__).parent.parent / 'signatures.json')).get('__attributes__', []))
+        except Exception:      # noqa: BLE001
+            _KNOWN_ATTRS = set()
+        _KNOWN_ATTRS |= {'time', 'paused_at', 'cancelled', 'executed', 'status'}
+    return _KNOWN_ATTRS
+
+
 def check_table(P, Env, N, o, op, expect):
     """expect: {(origin, m): (counts dict, [(attr, value check, text)], needs_sorted_insert)}; every other case must leave the element alone"""
     dk, fn = P.method(Env, op)
@@ -133,7 +148,10 @@ def check_table(P, Env, N, o, op, expect):
                 want = ', '.join(f'{want_counts[a]}x in the {NAMES[a]} list' for a in LISTS)
                 fail(op, f'{case}: afterwards it is {got}; expected {want}')
             want_writes = exp[1] if exp else []
-            got_attrs = [w[0] for w in r['writes']]
+            # a field the pinned tree does not have (a statistic such as `paused_duration`, a flag for a new query) is additive: nothing that exists reads
+            # it -- if something does, the rule about that reader's formula reports it (C06.6 for the resumed time)
+            got_attrs = [w[0] for w in r['writes'] if w[0] in _known_attributes() or w[0] in [a for a, _, _ in want_writes]]
+            r = dict(r, writes=[w for w in r['writes'] if w[0] in got_attrs])
             if sorted(got_attrs) != sorted(a for a, _, _ in want_writes):
                 fail(op, f'{case}: attributes written {got_attrs}; expected {[a for a, _, _ in want_writes]}', r['writes'][0][3] if r['writes'] else None)
             else:
